@@ -93,7 +93,7 @@ func runIsoRace(c Case, emit Emitter) {
 	cf, of := tmp+"/case.ndjson", tmp+"/obs.ndjson"
 	cj, _ := json.Marshal(c)
 	os.WriteFile(cf, append(cj, '\n'), 0o644)
-	ctx, cancel := context.WithTimeout(context.Background(), 60*time.Second)
+	ctx, cancel := context.WithTimeout(context.Background(), 300*time.Second)
 	defer cancel()
 	cmd := exec.CommandContext(ctx, os.Args[0], "isoracechild", cf, of)
 	cmd.Env = append(os.Environ(), "GORACE=halt_on_error=0 exitcode=0")
@@ -106,11 +106,17 @@ func runIsoRace(c Case, emit Emitter) {
 		fatal = strings.TrimSpace(m[1])
 	} else if ctx.Err() != nil || runErr != nil {
 		// not an observation of the library: the child was killed or could not run
-		fmt.Fprintf(os.Stderr, "isorace: child failed on case %d (%v, timeout=%v):\n%s\n", c.ID, runErr, ctx.Err() != nil, stderr)
+		head := stderr
+		if len(head) > 3000 {
+			head = head[:1500] + "\n...\n" + head[len(head)-1500:]
+		}
+		os.WriteFile(fmt.Sprintf("isorace-fail-%d.txt", c.ID), []byte(stderr), 0o644)
+		fmt.Fprintf(os.Stderr, "%s\nisorace: child failed on case %d (%v, timeout=%v)\n", head, c.ID, runErr, ctx.Err() != nil)
 		os.Exit(2)
 	}
 	// distinct final views over the rounds the child completed
 	var views []map[string]interface{}
+	var rets []map[string][]string
 	if f, err := os.Open(of); err == nil {
 		sc := bufio.NewScanner(f)
 		sc.Buffer(make([]byte, 1<<20), 1<<28)
@@ -119,20 +125,23 @@ func runIsoRace(c Case, emit Emitter) {
 			var e struct {
 				Ev    string                 `json:"ev"`
 				Views map[string]interface{} `json:"views"`
+				Rets  map[string][]string    `json:"rets"`
 			}
 			if json.Unmarshal(sc.Bytes(), &e) != nil || e.Ev != "round" {
 				continue
 			}
-			k, _ := json.Marshal(e.Views)
+			k, _ := json.Marshal([]interface{}{e.Views, e.Rets})
 			if !seen[string(k)] {
 				seen[string(k)] = true
 				views = append(views, e.Views)
+				rets = append(rets, e.Rets)
 			}
 		}
 		f.Close()
 	}
 	if len(views) == 0 {
 		views = append(views, map[string]interface{}{})
+		rets = append(rets, map[string][]string{})
 	}
 	sites := isoRaceSites(stderr)
 	for i, v := range views {
@@ -140,7 +149,7 @@ func runIsoRace(c Case, emit Emitter) {
 		for d, dv := range v {
 			ids[d] = tab.id(dv)
 		}
-		ev := Ev{"ev": "race", "case": c.ID, "sites": []string{}, "fatal": "", "views": ids, "rounds": x.Rounds}
+		ev := Ev{"ev": "race", "case": c.ID, "sites": []string{}, "fatal": "", "views": ids, "rets": rets[i], "rounds": x.Rounds}
 		if i == 0 {
 			ev["sites"] = sites
 			ev["fatal"] = fatal
@@ -165,17 +174,20 @@ func runIsoRaceChild(c Case, emit Emitter) {
 		var ready int32
 		n := int32(len(names))
 		var wg sync.WaitGroup
+		rets := map[string][]string{}
 		for _, d := range names {
 			wg.Add(1)
 			st, prog := docs[d], append(append([]Op{}, progs[d]...), isoFinalOp)
+			out := make([]string, len(prog))
+			rets[d] = out
 			go func() {
 				defer wg.Done()
 				atomic.AddInt32(&ready, 1)
 				for atomic.LoadInt32(&ready) < n {
 					runtime.Gosched()
 				}
-				for _, op := range prog {
-					isoExec(st, op)
+				for i, op := range prog {
+					out[i], _ = isoExec(st, op)
 				}
 			}()
 		}
@@ -185,6 +197,6 @@ func runIsoRaceChild(c Case, emit Emitter) {
 		for _, d := range names {
 			vs[d] = isoView(docs[d])
 		}
-		emit(Ev{"ev": "round", "case": c.ID, "r": r, "views": vs})
+		emit(Ev{"ev": "round", "case": c.ID, "r": r, "views": vs, "rets": rets})
 	}
 }
